@@ -78,21 +78,66 @@ fn classify(e: &Expression, out: &mut Outcome) {
 /// property's "up to floating-point rounding" does not cover; such inputs are skipped and counted.
 fn has_near_threshold_constant(e: &Expression) -> bool {
     let env = Env::default();
-    gx::any_node(e, &|n| {
-        if matches!(n, Expression::Number(_)) || gx::any_node(n, &|m| matches!(m, Expression::Variable(_) | Expression::Address(_))) {
+    let is_constant = |n: &Expression| !gx::any_node(n, &|m| matches!(m, Expression::Variable(_) | Expression::Address(_)));
+    let value = |n: &Expression| {
+        let mut d = eval::Diag::default();
+        eval::eval(n, &env, &mut None, &mut d).filter(|c| eval::finite(*c))
+    };
+    // (1) a single constant subexpression already near 0 / 1 or huge (its reciprocal is what the
+    //     rewrites fold next)
+    let single = gx::any_node(e, &|n| {
+        if matches!(n, Expression::Number(_)) || !is_constant(n) {
+            return false;
+        }
+        match value(n) {
+            Some(c) => {
+                let a = c.norm();
+                let b = (c - 1.0).norm();
+                (a > 0.0 && (a < 1e-7 || a > 1e7)) || (b > 0.0 && b < 1e-7)
+            }
+            None => false,
+        }
+    });
+    if single {
+        return true;
+    }
+    // (1b) a subtree that only *looks* non-constant (`c + %x*0`) is folded to a constant as well:
+    //      look at the value of every compound subtree at the first assignment too
+    let first = &assignments()[0];
+    let hidden = gx::any_node(e, &|n| {
+        if matches!(n, Expression::Number(_) | Expression::Variable(_) | Expression::Address(_) | Expression::PiConstant()) {
             return false;
         }
         let mut d = eval::Diag::default();
-        match eval::eval(n, &env, &mut None, &mut d) {
+        match eval::eval(n, first, &mut None, &mut d) {
             Some(c) if eval::finite(c) => {
                 let a = c.norm();
-                let b = (c - 1.0).norm();
-                // a huge constant counts too: its reciprocal is what the rewrites fold next
-                (a > 0.0 && (a < 1e-7 || a > 1e7)) || (b > 0.0 && b < 1e-7)
+                a > 0.0 && (a < 1e-7 || a > 1e7)
             }
             _ => false,
         }
-    })
+    });
+    if hidden {
+        return true;
+    }
+    // (2) the rewrites may multiply or divide any of the constants of the tree with each other
+    //     (exp(-16)*(exp(-16)*x) folds 1.3e-14): if the magnitudes of the maximal constant subtrees
+    //     could combine to something beyond 1e-9 .. 1e9, the threshold may decide the case
+    fn budget(n: &Expression, is_constant: &dyn Fn(&Expression) -> bool, value: &dyn Fn(&Expression) -> Option<num_complex::Complex64>) -> f64 {
+        if is_constant(n) {
+            return match value(n) {
+                Some(c) if c.norm() > 0.0 => c.norm().log10().abs(),
+                _ => 0.0,
+            };
+        }
+        match n {
+            Expression::Infix(i) => budget(&i.left, is_constant, value) + budget(&i.right, is_constant, value),
+            Expression::Prefix(p) => budget(&p.expression, is_constant, value),
+            Expression::FunctionCall(f) => budget(&f.expression, is_constant, value),
+            _ => 0.0,
+        }
+    }
+    budget(e, &is_constant, &value) > 9.0
 }
 
 pub fn oracle(e: &Expression, out: &mut Outcome, whole_tree_pi: bool) -> Check {
